@@ -371,9 +371,27 @@ class Summaries:
         ref_params = {p["d"] for p in fn.params if p.get("ref") and not p.get("const_ref")}
         ptr_params = {p["d"] for p in fn.params if p.get("ct", "").endswith("*") and "const" not in p.get("ct", "").split("*")[0]}
 
-        def root_item(t, elem=False):
+        # reference locals are names for what they were bound to: a store through one is a store to that object
+        ref_locals = {}
+        for nd0 in fn.nodes:
+            if nd0["k"] == "DeclStmt":
+                for d0 in nd0.get("decls", []):
+                    if d0.get("is_ref") and "init" in d0 and "d" in d0:
+                        it0 = fn.term(d0["init"])
+                        if it0[0] in ("mem", "idx", "un", "var", "call"):
+                            ref_locals[("var", d0["n"], d0["d"])] = it0
+            elif nd0["k"] == "CXXForRangeStmt" and "loopvar" in nd0:
+                for d0 in fn.n(nd0["loopvar"]).get("decls", []):
+                    if d0.get("is_ref") and "d" in d0:
+                        ref_locals[("var", d0["n"], d0["d"])] = ("idx", fn.term(nd0["range"]), ("?elem",))
+
+        def root_item(t, elem=False, _depth=0):
             # map an lvalue term to a write item; "@" marks element-only writes (the container's size is untouched)
             while True:
+                if t[0] == "var" and t in ref_locals and _depth < 4:
+                    t = ref_locals[t]
+                    _depth += 1
+                    continue
                 if t[0] == "mem":
                     if t[1] == ("this",):
                         return ("this@" if elem else "this", t[2])
